@@ -99,3 +99,28 @@ Definition check_ptransf (c : ptransf_case) : bool :=
   | Some t => res_eqb (list_eqb t4e_close) (pot_transform_ref FS t es sub) expected
   | None => false
   end.
+
+(* ---- whole conversion of a deck with one macrobody and the cell "-b": the
+   surfaces of the written volume, each with +1 when it is listed under MINUS
+   and -1 under PLUS, against body_t4 (any order) ---- *)
+Fixpoint remove_close (x : ft4e) (l : list ft4e) : option (list ft4e) :=
+  match l with
+  | [] => None
+  | y :: r => if t4e_close x y then Some r
+              else match remove_close x r with Some r' => Some (y :: r') | None => None end
+  end.
+
+Fixpoint same_multiset (a b : list ft4e) : bool :=
+  match a with
+  | [] => match b with [] => true | _ => false end
+  | x :: r => match remove_close x b with Some b' => same_multiset r b' | None => false end
+  end.
+
+Definition deck_case : Type := (list float * body * list float * list N * list ft4e)%type.
+
+Definition check_deck (c : deck_case) : bool :=
+  let '(tr, b, p, d, observed) := c in
+  match body_t4 FS (transf_of tr) b p d with
+  | Ok ts => same_multiset ts observed
+  | Err _ => false
+  end.
